@@ -108,6 +108,88 @@ def place_str(p):
     return "_%d%s" % (p[0], "".join(p[1:]))
 
 
+_PLACE_KEYS = ("lhs", "p", "dest", "resume_arg", "c", "m")
+_IDX_RX = re.compile(r"^\[_(\d+)\]$")
+
+
+def _mentioned(x, acc):
+    """heads (and index locals) of all places mentioned in a block / statement / terminator"""
+    if isinstance(x, dict):
+        for k, v in x.items():
+            if k in _PLACE_KEYS and isinstance(v, list) and v and isinstance(v[0], int) and not isinstance(v[0], bool):
+                acc.add(v[0])
+                for e in v[1:]:
+                    m = _IDX_RX.match(e) if isinstance(e, str) else None
+                    if m:
+                        acc.add(int(m.group(1)))
+            else:
+                _mentioned(v, acc)
+    elif isinstance(x, list):
+        for y in x:
+            _mentioned(y, acc)
+
+
+def _rename_local(x, old, new):
+    if isinstance(x, dict):
+        out = {}
+        for k, v in x.items():
+            if k in _PLACE_KEYS and isinstance(v, list) and v and isinstance(v[0], int) and not isinstance(v[0], bool):
+                out[k] = [new if v[0] == old else v[0]] + [("[_%d]" % new if isinstance(e, str) and e == "[_%d]" % old else e) for e in v[1:]]
+            else:
+                out[k] = _rename_local(v, old, new)
+        return out
+    if isinstance(x, list):
+        return [_rename_local(y, old, new) for y in x]
+    return x
+
+
+def _is_switch_on(x, T):
+    if x["term"]["k"] != "switch":
+        return False
+    if not x["stmts"] and op_place(x["term"]["o"]) == [T]:
+        return True
+    # `let b = matches!(..); if b {..}`: the switch block first copies the named bool into a temporary
+    return len(x["stmts"]) == 1 and x["stmts"][0]["rv"]["r"] == "use" and op_place(x["stmts"][0]["rv"]["o"]) == [T] \
+        and len(x["stmts"][0]["lhs"]) == 1 and op_place(x["term"]["o"]) == x["stmts"][0]["lhs"]
+
+
+def _walk_to_switch(blocks, cur, T, mentions, fuel):
+    """-> (chain [(block, successor taken)], switch block) from `cur` to the first switch on T, through empty goto blocks and through small
+    blocks (goto / switch) whose statements define private temporaries only; None when there is no such unique way"""
+    if fuel <= 0:
+        return None
+    x = blocks[cur]
+    if x.get("cleanup"):
+        return None
+    if _is_switch_on(x, T):
+        return [], cur
+    k = x["term"]["k"]
+    if k not in ("goto", "switch") or len(x["stmts"]) > 4:
+        return None
+    for y in x["stmts"]:
+        L = y["lhs"]
+        if len(L) != 1 or L[0] == T or mentions.get(L[0], set()) != {cur}:
+            return None
+    if k == "goto":
+        r = _walk_to_switch(blocks, x["term"]["t"], T, mentions, fuel - 1)
+        return None if r is None else ([(cur, x["term"]["t"])] + r[0], r[1])
+    acc = set()
+    _mentioned(x["term"], acc)
+    if T in acc:
+        return None
+    succs = []
+    for _, bb in x["term"]["targets"]:
+        if bb not in succs:
+            succs.append(bb)
+    if x["term"]["otherwise"] not in succs:
+        succs.append(x["term"]["otherwise"])
+    hits = [(s_, r) for s_ in succs for r in [_walk_to_switch(blocks, s_, T, mentions, fuel - 2)] if r is not None]
+    if len(hits) != 1:
+        return None
+    s_, r = hits[0]
+    return [(cur, s_)] + r[0], r[1]
+
+
 def split_const_bool_switches(rec):
     """`matches!(x, P if g)` and `match .. { A => true, _ => false }` store a constant in a bool temporary in each arm and branch on the
     temporary at the join.  For a path-insensitive reachability the join forgets which arm was taken (the `true` arm could leave by
@@ -128,11 +210,19 @@ def split_const_bool_switches(rec):
         elif t["k"] == "yield":
             defs.setdefault(t["resume_arg"][0], []).append((bi, None, None))
     dead = None
+    mentions = None
     for T, ds in defs.items():
         if T == 0 or T >= len(locals_) or locals_[T] != "bool" or len(ds) < 2:
             continue
         if not all(st is not None and st["lhs"] == [T] for _, _, st in ds):
             continue
+        if mentions is None:
+            mentions = {}
+            for bi_, b_ in enumerate(blocks):
+                acc = set()
+                _mentioned(b_, acc)
+                for L in acc:
+                    mentions.setdefault(L, set()).add(bi_)
         for bi, si, st in ds:
             # (`a && b && c` stores `false` in the arms that fail early and the value of `c` in the last one: the constant arms are
             # split off, the switch that remains is reached only through the last conjunct)
@@ -141,27 +231,12 @@ def split_const_bool_switches(rec):
             b = blocks[bi]
             if any(x["lhs"][0] == T for x in b["stmts"][si + 1:]) or b["term"]["k"] != "goto":
                 continue
-            # follow trivial gotos to a statement-less switch on T
-            chain, cur, ok = [], b["term"]["t"], False
-            for _ in range(5):
-                x = blocks[cur]
-                if x.get("cleanup"):
-                    break
-                if not x["stmts"] and x["term"]["k"] == "switch" and op_place(x["term"]["o"]) == [T]:
-                    ok = True
-                    break
-                # `let b = matches!(..); if b {..}`: the switch block first copies the named bool into a temporary
-                if len(x["stmts"]) == 1 and x["term"]["k"] == "switch" and x["stmts"][0]["rv"]["r"] == "use" and op_place(x["stmts"][0]["rv"]["o"]) == [T] \
-                        and len(x["stmts"][0]["lhs"]) == 1 and op_place(x["term"]["o"]) == x["stmts"][0]["lhs"]:
-                    ok = True
-                    break
-                if not x["stmts"] and x["term"]["k"] == "goto":
-                    chain.append(cur)
-                    cur = x["term"]["t"]
-                    continue
-                break
-            if not ok:
+            # follow trivial gotos - and small blocks that only compute private temporaries and do not touch T, such as the test of the
+            # other operand of `a || b` - to a switch on T
+            found = _walk_to_switch(blocks, b["term"]["t"], T, mentions, 6)
+            if found is None:
                 continue
+            chain, cur = found
             sw = blocks[cur]["term"]
             c = st["rv"]["o"]["k"]["v"]
             tgt = sw["otherwise"]
@@ -182,11 +257,23 @@ def split_const_bool_switches(rec):
             nt["split_of"] = cur
             blocks.append({"cleanup": False, "stmts": [dict(x) for x in blocks[cur]["stmts"]], "term": nt})
             nxt = len(blocks) - 1
-            # private copies of the trivial blocks in between (they may be shared with the other arms)
-            for x in reversed(chain):
-                g = dict(blocks[x]["term"])
-                g["t"] = nxt
-                blocks.append({"cleanup": False, "stmts": [], "term": g})
+            # private copies of the blocks in between (they may be shared with the other arms); the temporaries they define get
+            # fresh locals so that the originals keep a single definition
+            for x, via in reversed(chain):
+                blk = {"cleanup": False, "stmts": [dict(y) for y in blocks[x]["stmts"]], "term": dict(blocks[x]["term"])}
+                for y in blocks[x]["stmts"]:
+                    L = y["lhs"][0]
+                    locals_.append(locals_[L])
+                    blk = _rename_local(blk, L, len(locals_) - 1)
+                g = blk["term"]
+                if g["k"] == "goto":
+                    g["t"] = nxt
+                else:
+                    g["targets"] = [[v, nxt if bb == via else bb] for v, bb in g["targets"]]
+                    if g["otherwise"] == via:
+                        g["otherwise"] = nxt
+                    g["split_of"] = x
+                blocks.append(blk)
                 nxt = len(blocks) - 1
             b["term"] = dict(b["term"])
             b["term"]["t"] = nxt
@@ -673,6 +760,11 @@ class Fn:
                 t = self.term(node[0])
                 if t["k"] == "switch":
                     p = op_place(t["o"])
+                    if p is not None and len(p) > 1 and self.locals[local] == "bool":
+                        # `match (flag, x) { (true, _) => .. }` switches on the field of a tuple built from the flag
+                        r = [op_place(o) for o in self.resolve_fields(p)]
+                        if len(r) == 1 and r[0] == [local]:
+                            p = [local]
                     if p == [local]:
                         # bool switch: targets [[0, bbF]], otherwise bbT
                         lab0 = None
